@@ -25,10 +25,12 @@ import (
 	"github.com/massnetorg/mass-core/txscript"
 	"bufio"
 	"bytes"
+	crand "crypto/rand"
 	"crypto/sha256"
 	"encoding/hex"
 	"flag"
 	"fmt"
+	"io"
 	"os"
 	"sort"
 	"strings"
@@ -322,8 +324,30 @@ func aliasSpelling(r *rng.R, m string) (string, string) {
 	}
 }
 
+// detReader is the entropy source of one wallet life: CreateWallet / NewEntropy draw the mnemonic from
+// crypto/rand.Reader, which withEntropy replaces by this stream for the duration of the call, so that the wallets of a
+// run — and with them rare classes such as short-parent wallets — are a function of VERIF_SEED and the case number
+// and a reported case replays as the same wallet (salts and nonces drawn inside the call come from it too; everything
+// else keeps the system source).
+type detReader struct{ r *rng.R }
+
+func (d *detReader) Read(p []byte) (int, error) {
+	for i := range p {
+		p[i] = byte(d.r.U64())
+	}
+	return len(p), nil
+}
+
+func withEntropy(d *detReader, f func()) {
+	old := crand.Reader
+	crand.Reader = io.Reader(d)
+	defer func() { crand.Reader = old }()
+	f()
+}
+
 func runOne(seed uint64, n int, out *bufio.Writer) error {
 	r := rng.New(seed*15485863 + uint64(n)*2750159 + 11)
+	entropy := &detReader{rng.New(seed*32452843 + uint64(n)*49979687 + 29)}
 	root, err := os.MkdirTemp("/dev/shm", "vc04")
 	if err != nil {
 		root, err = os.MkdirTemp("", "vc04")
@@ -357,7 +381,9 @@ func runOne(seed uint64, n int, out *bufio.Writer) error {
 		// check) admit any passphrase of 6..40 bytes, and a version-0 keystore makes the passphrase part of the seed,
 		// so such a wallet must keep working with exactly that passphrase
 		pass = foreignPass(r)
-		ent, err := keystore.NewEntropy(bits)
+		var ent []byte
+		var err error
+		withEntropy(entropy, func() { ent, err = keystore.NewEntropy(bits) })
 		if err != nil {
 			w1.Stop()
 			return err
@@ -375,7 +401,9 @@ func runOne(seed uint64, n int, out *bufio.Writer) error {
 					stats["short_parent_sought"]++
 					break
 				}
-				e2, err := keystore.NewEntropy(bits)
+				var e2 []byte
+				var err error
+				withEntropy(entropy, func() { e2, err = keystore.NewEntropy(bits) })
 				if err != nil {
 					break
 				}
@@ -400,7 +428,7 @@ func runOne(seed uint64, n int, out *bufio.Writer) error {
 		stats["born_by_import_foreign_passphrase"]++
 	} else {
 		var err error
-		id, mnemonic, _, err = w1.WM.CreateWallet(pass, remark, bits)
+		withEntropy(entropy, func() { id, mnemonic, _, err = w1.WM.CreateWallet(pass, remark, bits) })
 		if err != nil {
 			w1.Stop()
 			return fmt.Errorf("CreateWallet: %v", err)
